@@ -1,2 +1,29 @@
-(* Props/C14.v — placeholder, theorems added in a later commit *)
-From NIR Require Import Model.Serial.
+(* Props/C14.v — Type inference commutes with serialisation.  (interim: what inference stores survives a file
+   unchanged in value; the regain theorems from Proofs/LayoutProofs.v / SimProofs.v are added when complete) *)
+From NIR Require Import Model.Serial Proofs.SerialProofs Proofs.InferProofs.
+
+(* the Conv1d annotation stored by inference (a numpy integer) is a fixed point of the file round trip *)
+Theorem c14_conv1d_annotation_survives : forall n, norm_val (np_int n) = Ok (np_int n).
+Proof. reflexivity. Qed.
+
+(* the Conv2d annotation (a tuple of numpy integers) comes back as the same integers *)
+Theorem c14_conv2d_annotation_survives : forall a b v',
+  norm_val (VTuple [np_int a; np_int b]) = Ok v' -> seq_view v' = Some [a; b].
+Proof.
+  intros a b v' H. apply (norm_val_ints [np_int a; np_int b] [a; b] v'); [reflexivity|discriminate|left; exact H].
+Qed.
+
+(* inference only ever assigns types and a Conv's input_shape: every other field that reaches the file is
+   what it was before inference *)
+Theorem c14_inference_changes_only_annotations : forall fuel es st k n, assoc k (st_ch st) = Some n ->
+  exists n', assoc k (st_ch (fst (run fuel es st))) = Some n' /\
+    node_kind n' = node_kind n /\
+    (forall f, f <> "input_shape" -> assoc f (node_fields n') = assoc f (node_fields n)).
+Proof.
+  intros fuel es st k n H. destruct (run_frame fuel es st k n H) as (n' & H1 & H2 & _ & H3 & _).
+  exists n'. repeat split; assumption.
+Qed.
+
+Print Assumptions c14_conv1d_annotation_survives.
+Print Assumptions c14_conv2d_annotation_survives.
+Print Assumptions c14_inference_changes_only_annotations.
